@@ -346,8 +346,13 @@ def prove_identity(pr, goal, desc, witness_fn=None, sample=True):
             pass
     from vp import symx
     s = z3.Solver()
+    s.set('timeout', 4000)
     s.add(z3.Not(goal))
-    r, _ = symx.forked_check(s, [], 15.0, [])
+    r = str(s.check())          # the seeded points agree, so this is almost surely an identity: normalisation settles it in milliseconds
+    if r != 'unsat':
+        s = z3.Solver()
+        s.add(z3.Not(goal))
+        r, _ = symx.forked_check(s, [], 15.0, [])
     res['queries'] += 1
     res['solver_s'] += time.time() - t
     if r == 'unsat':
@@ -375,13 +380,13 @@ def prove_identity(pr, goal, desc, witness_fn=None, sample=True):
     return False
 
 
-def explore(res, body, max_paths=2000, timeout_ms=30000, float_mode='regular', precision=None):
+def explore(res, body, max_paths=2000, timeout_ms=30000, float_mode='regular', precision=None, exact=False):
     """Run body(ex, PathProver) over all paths; folds executor statistics into res."""
     from vp import symx
     ex = symx.Executor(max_paths=max_paths, timeout_ms=timeout_ms)
 
     def one(ex):
-        CTX.reset(ex=ex, float_mode=float_mode, precision=precision)
+        CTX.reset(ex=ex, float_mode=float_mode, precision=precision, exact=exact)
         return body(ex, PathProver(res, ex))
     out = ex.run(one)
     st = ex.stats()
